@@ -52,7 +52,8 @@ Lemma alookup_fold_aput (k : N) (kids : list N) (l : list (N * N)) :
   alookup k (fold_left (fun acc x => aput x 1 acc) kids l) = if mem k kids then Some 1 else alookup k l.
 Proof.
   revert l; induction kids as [|x kids IH]; intro l; simpl; [reflexivity|].
-  rewrite IH, alookup_aput. unfold mem in *. destruct (existsb (N.eqb k) kids); [reflexivity|].
+  rewrite IH, alookup_aput. unfold mem. simpl.
+  destruct (existsb (N.eqb k) kids); [rewrite orb_true_r; reflexivity|].
   rewrite orb_false_r. reflexivity.
 Qed.
 
